@@ -31,7 +31,7 @@ def call_atom(name, suffixes, extra=None):
 
 
 def ok_blocks(f):
-    return [bi for bi, b in enumerate(f.blocks) for s in b["s"] if s["k"] == "assign" and s["p"]["l"] == 0 and not s["p"].get("pr") and s["r"]["k"] == "agg" and s["r"].get("variant") == "Ok"]
+    return [bi for bi, b in enumerate(f.blocks) for s in b["s"] if s["k"] == "assign" and s["p"]["l"] in Q.ret_locals(f) and not s["p"].get("pr") and s["r"]["k"] == "agg" and s["r"].get("variant") == "Ok"]
 
 
 def conj_table(ctx, R, key, f, atoms, good, targets, start=0, what="", need_all_targets=True, atomic=None):
